@@ -28,6 +28,17 @@ class RichMrgnEditor:
         # TODO: unit test the creation MRGN lookup here too https://github.com/sethmachine/richchk/issues/80
         loc_by_id = {loc.index: loc for loc in new_locations if loc.index is not None}
         id_by_loc = {loc: loc.index for loc in new_locations if loc.index is not None}
+        # an index outside the table can never be written: refuse it up front, whether
+        # the location sits in the MRGN already or only in a trigger, and however full
+        # the table is
+        for loc in list(new_locations) + list(unique_locations_to_add):
+            if loc.index is not None and not 1 <= loc.index <= MAX_LOCATIONS:
+                msg = (
+                    f"Location index {loc.index} is outside the MRGN range "
+                    f"[1, {MAX_LOCATIONS}]: {loc}"
+                )
+                self.log.error(msg)
+                raise ValueError(msg)
         # place the locations that already carry an index first, so that an index
         # they claim is never handed out to a location without one
         for i, loc in enumerate(
@@ -40,13 +51,6 @@ class RichMrgnEditor:
                 )
                 break
             if loc.index is not None:
-                if not 1 <= loc.index <= MAX_LOCATIONS:
-                    msg = (
-                        f"Location index {loc.index} is outside the MRGN range "
-                        f"[1, {MAX_LOCATIONS}]: {loc}"
-                    )
-                    self.log.error(msg)
-                    raise ValueError(msg)
                 if loc.index not in loc_by_id:
                     new_loc = self._build_new_location_with_index(loc, loc.index)
                     new_locations.append(new_loc)
